@@ -695,6 +695,11 @@ func replay(s *core.Shard, dir string) {
 		runFree(s, rc.Spec)
 		return
 	}
+	if rc.Part == 4 {
+		// concurrent loads of never-seen names: the stored document only shows the shape, fresh names are drawn again
+		runFreshNames(s, func(string) bool { return true })
+		return
+	}
 	runtime.GOMAXPROCS(4)
 	if rc.Part == 1 {
 		for k := 0; k < 50; k++ {
